@@ -68,7 +68,7 @@ PROPS["C01"] = {
     "level_text": "Explicit-state exploration of operation chains on the real field types from raw-limb lattice corners (all limbs at 0 / mask / headroom bound), every step compared with integer arithmetic mod p; exhaustive within the stated lattice, depth and pool, for every backend's representation.",
     "design_ref": "DESIGN.md section 4, C01",
     "level_note": "Decides the property for the enumerated limb lattice and depth only; trusted: reference model (self-tested), hooks forward unchanged, stateright search engine.",
-    "technique": "explicit-state BFS (stateright) over real-code operation chains + exhaustive lattice enumeration against a reference model",
+    "technique": "explicit-state BFS (layered engine over stateright::Model machines) over real-code operation chains + exhaustive lattice enumeration against a reference model",
 }
 
 
@@ -89,7 +89,7 @@ PROPS["C02"] = _std(
     "and the unpacked limb kernels (hook H3) on their call-site domain. distinct_nontrivial = distinct machine states.",
     "Explicit-state exploration of operator chains on the real Scalar type against Z/lZ, plus exhaustive corner alphabets for every constructor, for both the 52-bit and 29-bit limb backends.",
     "DESIGN.md section 4, C02",
-    "explicit-state BFS (stateright) over scalar values + exhaustive corner-alphabet enumeration against a reference model",
+    "explicit-state BFS (layered engine over stateright::Model machines) over scalar values + exhaustive corner-alphabet enumeration against a reference model",
     lambda tier: [R("simd"), R("serial32")] if tier == "quick" else [R("simd", deep=True), R("serial32", deep=True), R("serial64"), R("fiat32"), R("fiat64"), R("simd", "rel-legacy"), R("serial32", "rel-legacy")],
 )
 
@@ -100,7 +100,7 @@ PROPS["C03"] = _std(
     "plus the decoder on ~1200-1300 structured encodings (every y in 0..255 and p-256..p+18 with both sign bits, non-canonical y, negative zero). distinct_nontrivial = distinct machine states.",
     "Explicit-state exploration of group-operation histories on the real EdwardsPoint representation against the affine twisted-Edwards law, with torsion and exceptional points in the alphabet; decoder enumerated on structured encodings.",
     "DESIGN.md section 4, C03",
-    "explicit-state BFS (stateright) over real point representations + decoder alphabet enumeration against the affine group law",
+    "explicit-state BFS (layered engine over stateright::Model machines) over real point representations + decoder alphabet enumeration against the affine group law",
     lambda tier: QSET if tier == "quick" else T([R("simd", deep=True), R("simd", dispatch="serial"), R("serial32"), R("serial64"), R("fiat64"), R("fiat32"), R("avx512"), R("avx512", dispatch="avx2")]),
 )
 
@@ -401,7 +401,7 @@ PROPS["C10"] = {
     "level_text": "Exhaustive over a structured secret alphabet (digit values, carries, extreme scalars, single bits) for every operation not documented as variable-time, on the compiled release artefact of each backend; equality of full (instruction, data address) traces; variable-time entry points as positive controls in every run.",
     "design_ref": "DESIGN.md section 4, C10",
     "level_note": "Observes architectural control flow and data addresses of one compiler output (IFMA: control flow only); secrets outside the alphabet are not covered.",
-    "technique": "exhaustive secret-alphabet enumeration with full instruction/address trace comparison (valgrind lackey) on release binaries",
+    "technique": "exhaustive secret-alphabet enumeration with full instruction/address trace comparison (valgrind lackey; ptrace single-stepping for AVX-512) on release binaries",
     "engine": "ct (valgrind lackey + trace cutter)",
 }
 ENGINES.append({"name": "ct (valgrind lackey + trace cutter)", "path": "/verif/ct", "serves_properties": ["C10"],
@@ -423,7 +423,7 @@ PROPS["C14"] = _std(
     "(ii) explicit zeroisation of scalars, points, compressed forms; (iii) constant-time multiscalar_mul and Scalar::batch_invert for every n of the list with seven secret vectors: freed blocks identical across secrets and free of digit strings / scalar bytes / Montgomery partial products. states = lifecycles (histories), transitions = operations executed. In addition the secret-holding types are taken through create/use/clone/drop on a small binary built once per subset of the cargo features that gate them (coverage.feature_lattice).",
     "Exhaustive enumeration of bounded create/clone/use/zeroize/drop histories with an allocator-level observer; differential freed-heap comparison across secrets under every dispatch.",
     "DESIGN.md section 4, C14",
-    "exhaustive enumeration of object lifecycles under a heap observer + differential freed-block comparison",
+    "exhaustive enumeration of object lifecycles under a heap observer + differential freed-block comparison + enumeration of the cargo-feature lattice of the secret-holding types",
     lambda tier: [R("simd"), R("simd", dispatch="serial"), R("serial32"), R("avx512")] if tier == "quick" else [R("simd"), R("simd", dispatch="serial"), R("serial32"), R("fiat64"), R("fiat32"), R("avx512"), R("avx512", dispatch="avx2"), R("avx512", dispatch="serial")],
     post=_fx_post,
 )
